@@ -2,6 +2,7 @@ package xpath
 
 import (
 	"fmt"
+	"math/big"
 	"strings"
 
 	"strconv"
@@ -75,7 +76,15 @@ func num(s string) (interface{}, error) {
 		return n, nil
 	}
 	// upper half of uint64
-	return strconv.ParseUint(s, 10, 64)
+	if n, err := strconv.ParseUint(s, 10, 64); err == nil {
+		return n, nil
+	}
+	// a whole number no 64-bit type holds is still a number: "x < 18446744073709551616"
+	// holds for every x there is
+	if n, ok := new(big.Int).SetString(s, 10); ok {
+		return n, nil
+	}
+	return nil, fmt.Errorf("'%s' is not a number", s)
 }
 
 func literal(s string) interface{} {
